@@ -12,10 +12,11 @@ import OpusModel.Gen.DtxConsts
     * the packet-level paths of `opus_encode_native` / `opus_encode_frame_native`
                                               src/opus_encoder.c:1154-1168 (argument checks),
                                               1249-1333 (bitrate, CBR bytes, low-budget "PLC" packets),
-                                              1388 (silk_mode.useDTX), 1497-1502 (SILK re-init when
+                                              1388-1399 (silk_mode.useDTX, counter reset), 1508-1513 (SILK re-init when
                                               leaving CELT), 1616-1746 (multi-frame split, dtx_count,
                                               repacketiser), 1814-1826 (activity), 2117-2123
-                                              (nBytes==0 return), 2405-2427 (prev_mode, DTX decision)
+                                              (nBytes==0 return), 2416-2452 (prev_mode, DTX decision,
+                                              payload-overrun "PLC" packet)
     * `OPUS_GET_IN_DTX`                       src/opus_encoder.c:3113-3139
 
   Everything the integer logic consumes from the DSP is an *oracle* argument recorded from the
@@ -173,6 +174,8 @@ structure Sub where
   valid : Bool          -- analysis_info->valid as this frame sees it
   det : Bool            -- the detector's decision (src/opus_encoder.c:1819-1825), used when valid ∧ ¬silence
   silk : List SCall     -- the silk_Encode calls of this frame: [prefill]? ++ [main]   (ignored in CELT-only mode)
+  bust : Bool := false  -- the coded payload exceeded the frame budget: branch `ec_tell(&enc) > (max_data_bytes-1)*8`
+                        -- taken (src/opus_encoder.c:2443-2452, "tell the decoder to call the PLC")
   deriving DecidableEq, Repr
 
 /-- Oracles of one `opus_encode*` call. -/
@@ -277,6 +280,7 @@ inductive Pkt where
   | lowBudget (len : Nat)     -- the "PLC" packet of the low-budget path (CBR: padded to len)
   | dtx (len : Nat)           -- every coded frame was dropped
   | normal                    -- coded audio; the length is the inner encoders' business
+  | bust                      -- single-frame packet whose payload exceeded the budget: TOC + 0x00, 2 bytes (:2443-2452)
   | badOracle                 -- the recorded oracles do not have the shape the model computes (a tie failure)
   deriving DecidableEq, Repr
 
@@ -319,10 +323,20 @@ def subQ1 (c : Cfg) (m : Mode) : Nat := 2 * 1000 * (split c.fs (frameSize c) m).
 /-- `is_silence` as the encoder sees it: only computed when the analysis runs (:1181-1184). -/
 def isSilOf (c : Cfg) (o : CallOr) : Bool := analysisOn c && o.digSil
 
-/-- State at the start of the frame loop: `silk_mode.useDTX` (:1388), `st->mode`, and the SILK
-    re-initialisation when leaving CELT-only (:1497-1502). -/
+/-- The new value of `silk_mode.useDTX` (:1388): SILK's own DTX is in charge of this call. -/
+def sdtxOf (c : Cfg) (o : CallOr) : Bool := c.useDtx && !((analysisOn c && o.valid0) || isSilOf c o)
+
+/-- :1388-1399  when the DTX detector in charge changes (the new `silk_mode.useDTX` differs from the
+    stored one) neither run counter carries over: `nb_no_activity_ms_Q1` and both `noSpeechCounter`s
+    are cleared. -/
+def switchReset (sdtx : Bool) (st : St) : St :=
+  if sdtx ≠ st.silkUseDtx then { st with nb := 0, silk := { st.silk with c0 := 0, c1 := 0 } } else st
+
+/-- State at the start of the frame loop: `silk_mode.useDTX` (:1388-1399, with the counter reset on a
+    change of detector), `st->mode`, and the SILK re-initialisation when leaving CELT-only (:1508-1513). -/
 def prepCall (c : Cfg) (st : St) (o : CallOr) : St :=
-  let sdtx := c.useDtx && !((analysisOn c && o.valid0) || isSilOf c o)
+  let sdtx := sdtxOf c o
+  let st := switchReset sdtx st
   if o.mode ≠ .celt ∧ st.prevMode = .celt then { st with silkUseDtx := sdtx, mode := o.mode, silk := silkInit }
   else { st with silkUseDtx := sdtx, mode := o.mode }
 
@@ -333,6 +347,15 @@ def encodeLoop (c : Cfg) (st : St) (o : CallOr) : St × List Bool :=
     "all dropped". -/
 def pktOf (flags : List Bool) (n : Nat) : Pkt :=
   if (!flags.isEmpty && flags.all id) = true then .dtx (dtxPacketLen n) else .normal
+
+/-- The packet of a call that went through the frame loop: all coded frames dropped → DTX packet
+    (:1738-1740); a single coded frame, not dropped, whose payload exceeded the budget → the 2-byte
+    "PLC" packet of :2443-2452 (`max_data_bytes ≥ 3` on this path, so not `OPUS_BUFFER_TOO_SMALL`); in a
+    multi-frame packet such a frame contributes two bytes to a longer packet. -/
+def finalPkt (flags : List Bool) (n : Nat) (subs : List Sub) : Pkt :=
+  match flags, subs with
+  | [false], [s] => if s.bust then .bust else .normal
+  | _, _ => pktOf flags n
 
 /-- `opus_encode_native`, DTX-relevant skeleton. -/
 def encodeCall (c : Cfg) (st : St) (o : CallOr) : St × Pkt × Trace :=
@@ -346,7 +369,7 @@ def encodeCall (c : Cfg) (st : St) (o : CallOr) : St × Pkt × Trace :=
   else if o.subs.length ≠ nSub c o.mode then (prepCall c st o, .badOracle, {})
   else
     let r := encodeLoop c st o
-    (r.1, pktOf r.2 (nSub c o.mode),
+    (r.1, finalPkt r.2 (nSub c o.mode) o.subs,
      frameTrace c.useDtx (isSilOf c o) o.mode (subQ1 c o.mode) o.toCelt (prepCall c st o) o.subs
        { sil := if isSilOf c o then 1 else 0 })
 
@@ -357,6 +380,45 @@ def inDtx (c : Cfg) (st : St) : Bool :=
     if v ∧ st.modeNch = 2 ∧ st.silk.pmo = false then decide (st.silk.c1 ≥ nbSpeechFramesBeforeDtx) else v
   else if c.useDtx then decide (st.nb ≥ onsetQ1)
   else false
+
+/-! ### Shape of the recorded oracles
+
+  Facts about the inner encoders that the theorems of C20 assume and that the correspondence run
+  monitors on every call (the driver answers `BAD-ORACLE` when one fails):
+    * the main `silk_Encode` call of a coded frame has `prefillFlag = 0`, codes 1..3 SILK frames
+      (`MAX_FRAMES_PER_PACKET`) and a SILK frame lasts at most 20 ms; it is preceded by at most one
+      prefill call (`prefillFlag` 1 or 2, src/opus_encoder.c:2076-2090);
+    * `st->mode` is one of the three modes once a call reaches the frame loop;
+    * (`coherentOk`, not monitored as an error) when the call starts from an analysis result that is
+      not valid and the input is not silent, the per-frame analysis results (`tonality_get_info`,
+      :1708) are not valid either. -/
+
+def mainOk (fQ1 : Nat) (m : SCall) : Bool :=
+  m.prefill == 0 && decide (1 ≤ m.frames.length) && decide (m.frames.length ≤ maxFramesPerPacket)
+    && decide (fQ1 ≤ 40 * m.frames.length)
+
+def subOk (fQ1 : Nat) (s : Sub) : Bool :=
+  match s.silk with
+  | [m] => mainOk fQ1 m
+  | [p, m] => p.prefill != 0 && decide (1 ≤ p.frames.length) && decide (p.frames.length ≤ maxFramesPerPacket)
+      && mainOk fQ1 m
+  | _ => false
+
+/-- Shape part of the contract: true by construction of the encoder; monitored (`BAD-ORACLE`). -/
+def shapeOk (c : Cfg) (o : CallOr) : Bool :=
+  o.mode != .none && (o.mode == .celt || o.subs.all (subOk (subQ1 c o.mode)))
+
+/-- Coherence part: the per-frame analysis results are not "more valid" than the call-level one that
+    decided `silk_mode.useDTX`.  The real encoder violates it on rare calls (a multi-frame packet in
+    which the very first valid analysis result appears after the first coded frame); the harness
+    counts those (`incoherent_valid`) and the theorems that need it say so. -/
+def coherentOk (c : Cfg) (o : CallOr) : Bool :=
+  (analysisOn c && o.valid0) || isSilOf c o || o.subs.all (fun s => !s.valid)
+
+def oracleOk (c : Cfg) (o : CallOr) : Bool :=
+  o.mode != .none
+    && (o.mode == .celt || o.subs.all (subOk (subQ1 c o.mode)))
+    && ((analysisOn c && o.valid0) || isSilOf c o || o.subs.all (fun s => !s.valid))
 
 /-- State of a freshly created encoder (`opus_encoder_init`, src/opus_encoder.c:203-285). -/
 def initSt (channels : Nat) : St :=
